@@ -94,7 +94,10 @@ def render(st, seed=0, uniform=False):
             elif len(r) == 1:
                 t = TEMPLATES[rnd.randrange(len(TEMPLATES))].format(n=n)
                 k = len(ident_positions(t, n))
-                d.add(indent + t, [(n, r[0], "ref", i) for i in range(k)])
+                toks = [(n, r[0], "ref", i) for i in range(k)]
+                if "sink(" in t and site in ("p", "q"):
+                    toks.append(("sink", ("p", "sink"), "ref", 0))   # the external procedure declared by p's interface body
+                d.add(indent + t, toks)
             elif len(r) == 0:
                 d.add(indent + "print *, %s" % n, [(n, None, "probe", 0)])
 
@@ -149,6 +152,12 @@ def render(st, seed=0, uniform=False):
     d.add("  implicit none")
     for n in sorted(p["decl"]):
         d.add("  integer :: %s" % n, [(n, ("p", n), "decl", 0)])
+    if not uniform:
+        d.add("  interface")
+        d.add("    subroutine sink(a, b)", [("sink", ("p", "sink"), "decl", 0)])
+        d.add("      integer :: a, b")
+        d.add("    end subroutine sink", [("sink", ("p", "sink"), "endname", 0)])
+        d.add("  end interface")
     ref_lines(d, "p", "  ")
     d.add("contains")
     d.add("  subroutine q()")
